@@ -101,6 +101,7 @@ static std::string RunOpt(const std::vector<std::string>& ops) {
     int i = std::stoi(a[0]);
     int x = a.size() > 1 ? std::stoi(a[1]) : 0;
     bool done = true;
+    std::string extra;
     auto dead = [&](int k) { return k >= 0 && k < 3 && !p->alive[k]; };
     auto live = [&](int k) { return k >= 0 && k < 3 && p->alive[k]; };
     switch (c) {
@@ -119,10 +120,24 @@ static std::string RunOpt(const std::vector<std::string>& ops) {
       case 'e': if (live(i)) { nop::Optional<int> oi; w.Open(); *p->at(i) = oi; w.Close(); } else done = false; break;
       case 'c': if (live(i)) { w.Open(); p->at(i)->clear(); w.Close(); } else done = false; break;
       case 't': if (live(i) && !p->at(i)->empty()) { w.Open(); { T0 y = p->at(i)->take(); (void)y; } w.Close(); } else done = false; break;
+      // T: assignment of a value whose copy constructor throws (when the target is empty the element is constructed in
+      // place: the exception must leave the target empty); O: move-assignment from a plain Optional<T> holding x,
+      // which must be left empty (the target may be an Entry)
+      case 'T':
+        if (live(i)) { T0 tmp(x); w.Open(); g_throw = true; try { *p->at(i) = tmp; } catch (const Boom&) {} g_throw = false; w.Close(); } else done = false;
+        break;
+      case 'O':
+        if (live(i)) {
+          w.Open();
+          { nop::Optional<T0> src{T0(x)}; *p->at(i) = std::move(src); if (!src.empty()) extra = "SRC-NOT-EMPTIED"; }
+          w.Close();
+          Window::ctor -= 1; Window::dtor -= 1;      // the temporary T0(x) of the harness
+        } else done = false;
+        break;
       default: done = false;
     }
     if (!out.empty()) out += " ";
-    out += (done ? "" : "skip ") + Head() + "|" + DumpOpt(*p);
+    out += (done ? "" : "skip ") + Head() + "|" + DumpOpt(*p) + extra;
   }
   for (int i = 0; i < 3; i++) if (p->alive[i]) { w.Open(); p->at(i)->~O(); w.Close(); }
   out += " end=" + Head();
